@@ -138,6 +138,13 @@ func (u *Universe) msgCase(out *bufio.Writer, ti *TypeInfo, v *Val, o buildOpts)
 			localizeTimes(reflect.ValueOf(twin).Elem(), zone == 2)
 		}
 	}
+	// generated accessors (plugin parameter field_access=true): Get<Field>() = the field, zero value for a nil receiver
+	if g, why := u.getterCheck(ti, m); g != "na" {
+		flags = append(flags, "get="+g)
+		if why != "" {
+			detail = append(detail, "getter: "+why)
+		}
+	}
 	before, _ := u.read(ti, m)
 	data, pan := safeMarshal(m)
 	if pan != "" {
